@@ -369,7 +369,8 @@ def stream_rest(ctx, w):
                 mk = mo['outcome']['k'] if isinstance(mo, dict) and 'outcome' in mo else 'driver'
                 ctx.evaluated('rest', ['share', actor, r['n']], nontrivial=(a != r['p']))
                 ctx.count('rest', 'share:%d' % resp.status_int)
-                exp = {'done': 201, 'notFound': 404, 'unsupported': 400}.get(mk)
+                exp = {'done': 201, 'notFound': 404, 'unsupported': 400, 'notAllowed': 403,
+                       'systemProtected': 400}.get(mk)
                 if exp != resp.status_int:
                     ctx.disagree('rest', {'op': 'share', 'actor': actor, 'workflow': r['n']}, mk, resp.status_int)
                 facts = {}
